@@ -235,17 +235,33 @@ def spaces(ses, rep):
 
 def replay_spaces(info):
     binp = common.native_build("default")
-    src = "local function f(a) end\nfunction g(a) end\nlocal h = function(a) end\nf(1)\nt.k(2)\nt:m(3)\n"
+    src = ('local function f(a) end\nfunction g(a) end\nlocal h = function(a) end\nfunction t.u:v(a) end\nf(1)\nt.k(2)\nt:m(3)\n'
+           'require "mod"\nsetup { a = 1 }\nobj:method "arg"\nobj:other { 1 }\n')
+    for cp in ("Always", "None", "Input", "NoSingleString", "NoSingleTable"):
+        for mode in ("Never", "Definitions", "Calls", "Always"):
+            rc, out, err = common.run_stylua(binp, src, ["--space-after-function-names", mode, "--call-parentheses", cp])
+            if rc != 0:
+                continue
+            defs = re.findall(r"function(?: [\w.:]+)?( ?)\(", out)
+            calls = re.findall(r"^(?:f|t\.k|t:m|require|setup|obj:method|obj:other)( ?)\(", out, re.M)      # (calls kept in sugar form have no `(`)
+            want_def = " " if mode in ("Always", "Definitions") else ""
+            want_call = " " if mode in ("Always", "Calls") else ""
+            if any(d != want_def for d in defs) or any(c != want_call for c in calls) or len(defs) != 4 or len(calls) < 3:
+                return (f"--space-after-function-names {mode} --call-parentheses {cp}: {out!r}",
+                        {"source": src, "mode": mode, "call_parentheses": cp, "output": out})
+    # headers whose parameter list is laid out over several lines (too wide, or a comment on a parameter)
+    src2 = ('local function connect(first_parameter_name, second_parameter_name, third_parameter_name) end\n'
+            'function Object.nested:method(first_parameter_name, second_parameter_name, third_parameter_name) end\n'
+            'local callback = function(first_parameter_name, second_parameter_name, third_parameter_name) end\n'
+            'function commented(a, -- c\n b) end\n')
     for mode in ("Never", "Definitions", "Calls", "Always"):
-        rc, out, err = common.run_stylua(binp, src, ["--space-after-function-names", mode])
+        rc, out, err = common.run_stylua(binp, src2, ["--space-after-function-names", mode, "--column-width", "60"])
         if rc != 0:
             continue
-        defs = re.findall(r"function(?: \w+)?( ?)\(", out)
-        calls = re.findall(r"^(?:f|t\.k|t:m)( ?)\(", out, re.M)
+        defs = re.findall(r"function(?: [\w.:]+)?( ?)\(", out)
         want_def = " " if mode in ("Always", "Definitions") else ""
-        want_call = " " if mode in ("Always", "Calls") else ""
-        if any(d != want_def for d in defs) or any(c != want_call for c in calls) or len(defs) != 3 or len(calls) != 3:
-            return f"--space-after-function-names {mode}: {out!r}", {"source": src, "mode": mode, "output": out}
+        if any(d != want_def for d in defs) or len(defs) != 4:
+            return f"--space-after-function-names {mode} --column-width 60: {out!r}", {"source": src2, "mode": mode, "output": out}
     return None, {}
 
 
